@@ -290,9 +290,16 @@ func (ws *WatchingSource) watchLoop(
 	eventNumber := 0
 	cleanedPathDir := filepath.Dir(cleanedPath)
 	cleanedPathDirPlusDir := filepath.Join(cleanedPathDir, k8sIntermediateSymlinkDir)
+	// The file may have been modified between the initial read (Value()) and
+	// the moment Watch() finished setting up the watches. Nothing would ever
+	// notify us of such a change, so re-read the file once right away
+	// (unchanged contents are filtered out by the checksum).
+	initialCheck := make(chan struct{}, 1)
+	initialCheck <- struct{}{}
 MAINLOOP:
 	for {
 		select {
+		case <-initialCheck:
 		case <-tickerChan:
 		case <-ws.Reload:
 		case ev, ok := <-ws.watcher.Events:
